@@ -151,3 +151,108 @@ Example C07_former_S3_witness :
   assign_names [] ["a"; "a$2"; "a"] = Some (["a"; "a$2"; "a$3"], ["a$3"; "a$2"; "a"]) /\
   assign_names ["o"] ["a"; "a$3"; "a"] = Some (["a"; "a$3"; "a$4"], ["a$4"; "a$3"; "a"; "o"]).
 Proof. vm_compute. split; reflexivity. Qed.
+
+(* --- translator unit "rtlil": definitions regenerated from the CURRENT text of amaranth/back/rtlil.py (and
+       hdl/_ir.py _add_name) on every run (Gen/RtlilGen.v) are equal to the model on all inputs
+       (Proofs/GenEqRtlil.v).  The source writes text, the model keeps the parsed form: Model/RtlilText.v gives the
+       concrete syntax of the parsed form (print_const / print_param / print_attr / print_wire / print_memory). --- *)
+From V.Model Require Import RtlilText.
+From V.Proofs Require Import GenEqRtlil.
+From V.Gen Require RtlilGen.
+
+(* _const: for every str, every int (any size and sign) and every Const of a well-formed shape, the text written is
+   the concrete syntax of the constant the model predicts (emit_xval: decimal / max(32, bits_for v) digits / width
+   digits / the string); a float makes _const raise *)
+Theorem C07_translated_const : forall fuel x, (2 <= fuel)%nat -> xval_wf x = true ->
+  RtlilGen.const fuel (of_xval x) = match x with XReal _ => None | _ => Some (print_const (snd (emit_xval x))) end.
+Proof. exact gen_const_eq. Qed.
+Print Assumptions C07_translated_const.
+
+(* _const(Undef(w)): w digits x *)
+Theorem C07_translated_const_undef : forall fuel w, 0 < w ->
+  RtlilGen.const (S fuel) (PyUndef w) = Some (print_const (PBits (repeat 2 (Z.to_nat w)))).
+Proof. exact gen_const_undef. Qed.
+Print Assumptions C07_translated_const_undef.
+
+(* _signed: the `signed` flag of the model *)
+Theorem C07_translated_signed : forall x,
+  RtlilGen.signed (of_xval x) = match x with XReal _ => None | _ => Some (fst (emit_xval x) =? 1) end.
+Proof. exact gen_signed_eq. Qed.
+Print Assumptions C07_translated_signed.
+
+(* value.translate(_escape_map): the five escapes of a quoted string *)
+Theorem C07_translated_escape : forall s, py_translate RtlilGen.escape_map s = esc_string s.
+Proof. exact gen_escape_eq. Qed.
+Print Assumptions C07_translated_escape.
+
+(* the attribute loop body of Module/Wire/Cell/Memory/Process.emit and the parameter loop body of Cell.emit *)
+Theorem C07_translated_attr_line : forall fuel name x, (2 <= fuel)%nat -> xval_wf x = true ->
+  RtlilGen.attr_line fuel name (of_xval x) =
+  match x with XReal _ => None | _ => Some (print_attr (xattr_text (public name, x))) end.
+Proof. exact gen_attr_line_eq. Qed.
+Print Assumptions C07_translated_attr_line.
+
+Theorem C07_translated_param_line : forall fuel name x, (2 <= fuel)%nat -> xval_wf x = true -> real_ok x ->
+  RtlilGen.param_line fuel name (of_xval x) = Some (print_param (xparam_text (public name, x))).
+Proof. exact gen_param_line_eq. Qed.
+Print Assumptions C07_translated_param_line.
+
+(* Wire.emit / Memory.emit after the attribute loop: the declaration line, an empty line, the port counter *)
+Theorem C07_translated_wire_lines_plain : forall nm wd sg ats pid,
+  RtlilGen.wire_lines wd sg None nm pid = Some ([print_wire (Wire nm wd None sg ats); ""], pid).
+Proof. exact gen_wire_lines_plain. Qed.
+Print Assumptions C07_translated_wire_lines_plain.
+
+Theorem C07_translated_wire_lines_port : forall nm wd sg ats d pid,
+  RtlilGen.wire_lines wd sg (Some (dir_text d)) nm pid =
+  Some ([print_wire (Wire nm wd (Some (d, pid)) sg ats); ""], pid + 1).
+Proof. exact gen_wire_lines_port. Qed.
+Print Assumptions C07_translated_wire_lines_port.
+
+Theorem C07_translated_memory_lines : forall nm wd sz ats,
+  RtlilGen.memory_lines wd sz nm = Some [print_memory (Mem nm wd sz ats); ""].
+Proof. exact gen_memory_lines_eq. Qed.
+Print Assumptions C07_translated_memory_lines.
+
+(* Module._auto_name: private names $1, $2, ... *)
+Theorem C07_translated_auto_name : forall k, RtlilGen.auto_name k = Some (auto_name k).
+Proof. exact gen_auto_name_eq. Qed.
+Print Assumptions C07_translated_auto_name.
+
+(* Module._name: public names get a backslash, None the next private name; an already used name is the bare
+   AssertionError (None) *)
+Theorem C07_translated_module_name : forall k contents name,
+  RtlilGen.module_name k contents name = module_name k contents name.
+Proof. exact gen_module_name_eq. Qed.
+Print Assumptions C07_translated_module_name.
+
+(* hdl/_ir.py _add_name: the retry loop and the function are the model's (C07_add_name_fresh & co. are about them) *)
+Theorem C07_translated_add_name_index : forall fuel A n i,
+  RtlilGen.add_name_index fuel A n i = find_index fuel A n i.
+Proof. exact gen_add_name_index_eq. Qed.
+Print Assumptions C07_translated_add_name_index.
+
+Theorem C07_translated_add_name : forall A n, RtlilGen.add_name A n = add_name A n.
+Proof. exact gen_add_name_eq. Qed.
+Print Assumptions C07_translated_add_name.
+
+(* non-vacuity: the regenerated functions run and write the expected text *)
+Example C07_translated_example :
+  RtlilGen.const 2 (PyInt 5) = Some "5" /\
+  RtlilGen.const 2 (PyInt (-2)) = Some "32'11111111111111111111111111111110" /\
+  RtlilGen.const 2 (PyInt (2 ^ 31 - 1)) = Some "32'01111111111111111111111111111111" /\
+  RtlilGen.const 2 (PyConst (-3) 3 true) = Some "3'101" /\
+  RtlilGen.const 2 (PyConst 0 0 false) = Some "0'0" /\
+  RtlilGen.const 2 (PyUndef 4) = Some "4'xxxx" /\
+  RtlilGen.const 2 (PyStr "a""b\c") = Some """a\""b\\c""" /\
+  RtlilGen.const 1 (PyInt (-2)) = None /\
+  RtlilGen.param_line 2 "W" (PyInt (-2)) = Some "parameter signed \W 32'11111111111111111111111111111110" /\
+  RtlilGen.param_line 2 "R" (PyFloat "1.5") = Some "parameter real \R ""1.5""" /\
+  RtlilGen.attr_line 2 "keep" (PyInt 1) = Some "attribute \keep 1" /\
+  RtlilGen.wire_lines 8 true (Some "input") "\a" 3 = Some (["wire width 8 input 3  signed \a"; ""], 4) /\
+  RtlilGen.wire_lines 8 false None "$1" 3 = Some (["wire width 8 $1"; ""], 3) /\
+  RtlilGen.memory_lines 8 4 "\mem" = Some ["memory width 8 size 4 \mem"; ""] /\
+  RtlilGen.auto_name 6 = Some (7, "$7") /\
+  RtlilGen.module_name 6 ["\s.f"] None = Some (7, "$7") /\ RtlilGen.module_name 6 ["\s.f"] (Some "s.f") = None /\
+  RtlilGen.add_name ["a$2"; "a"] "a" = Some ("a$3", ["a$3"; "a$2"; "a"]).
+Proof. vm_compute. repeat split; reflexivity. Qed.
